@@ -84,6 +84,11 @@ func genPlan(t *rapid.T) Plan {
 			st.Kind = KQuiesce
 		}
 		p.Steps = append(p.Steps, st)
+		if st.Kind == KDrop && rapid.IntRange(0, 3).Draw(t, "sweep_after_drop") == 0 {
+			// the sweep finds the database in the dropped state (on the primary, or on a
+			// replica once the drop has reached it)
+			p.Steps = append(p.Steps, Step{Kind: KQuiesce}, Step{Kind: KRetain, Node: rapid.IntRange(0, 3).Draw(t, "sweep_node")})
+		}
 	}
 	p.Steps = append(p.Steps, Step{Kind: KQuiesce})
 	return p
